@@ -2,21 +2,21 @@
 namespace {
 #if VF_GROUP == 0
 VF_MAPPED(int16_t, 2, 1);
-VF_MAPPED(uint32_t, 8, 4);
+VF_MAPPED(uint32_t, 6, 4);
 VF_MAPPED(uint64_t, 1, 0);
 VF_MAPPED_F(uint64_t, 4, 4, double);
 #elif VF_GROUP == 1
-VF_MAPPED(int32_t, 4, 0);
+VF_MAPPED(int32_t, 3, 0);
 VF_MAPPED(uint16_t, 1, 4);
-VF_MAPPED(int64_t, 32, 4);
+VF_MAPPED(int64_t, 24, 3);
 VF_MAPPED_F(int64_t, 2, 1, double);
 #elif VF_GROUP == 2
 VF_MAPPED(int64_t, 1, 1);
 VF_MAPPED(uint32_t, 2, 0);
-VF_MAPPED(uint16_t, 128, 4);
+VF_MAPPED(uint16_t, 100, 4);
 VF_MAPPED_F(uint32_t, 16, 0, double);
 #else
-VF_MAPPED(uint64_t, 8, 4);
+VF_MAPPED(uint64_t, 12, 5);
 VF_MAPPED(int32_t, 128, 0);
 VF_MAPPED(int16_t, 8, 0);
 VF_MAPPED_F(int16_t, 1, 4, double);
